@@ -291,7 +291,10 @@ where
                 }
             }
             JSXElementName::JSXMemberExpr(expr) => Expr::JSXMember(expr.clone()),
-            JSXElementName::JSXNamespacedName(name) => Expr::JSXNamespacedName(name.clone()),
+            JSXElementName::JSXNamespacedName(name) => Expr::Lit(Lit::Str(quote_str!(format!(
+                "{}:{}",
+                name.ns.sym, name.name.sym
+            )))),
         }
     }
 
@@ -502,10 +505,10 @@ where
                                     ..
                                 }) => Box::new(Expr::JSXEmpty(*expr)),
                                 JSXAttrValue::JSXElement(element) => {
-                                    Box::new(Expr::JSXElement(element.clone()))
+                                    Box::new(self.transform_jsx_element(element))
                                 }
                                 JSXAttrValue::JSXFragment(fragment) => {
-                                    Box::new(Expr::JSXFragment(fragment.clone()))
+                                    Box::new(self.transform_jsx_fragment(fragment))
                                 }
                             })
                             .unwrap_or_else(|| {
@@ -536,6 +539,8 @@ where
                                 "class" if !is_component => has_class_binding = true,
                                 "style" if !is_component => has_style_binding = true,
                                 "key" | "on" | "ref" => {}
+                                // merged through the `transformOn` helper below, not a prop of that name
+                                "nativeOn" if self.options.transform_on => {}
                                 _ => {
                                     dynamic_props.insert(attr_name.clone());
                                 }
@@ -1006,15 +1011,13 @@ where
             JSXElementName::JSXMemberExpr(JSXMemberExpr { prop, .. }) => &*prop.sym,
             JSXElementName::JSXNamespacedName(JSXNamespacedName { name, .. }) => &*name.sym,
         };
-        let should_transformed_to_slots = !self
-            .vue_imports
-            .get(FRAGMENT)
-            .map(|ident| &*ident.sym == name)
-            .unwrap_or_default()
-            && name != KEEP_ALIVE;
+        let should_transformed_to_slots = !is_fragment_name(name) && name != KEEP_ALIVE;
 
         if matches!(element_name, JSXElementName::JSXMemberExpr(..)) {
             should_transformed_to_slots
+        } else if matches!(element_name, JSXElementName::JSXNamespacedName(..)) {
+            // `<ns:name>` is a string tag
+            false
         } else {
             self.options
                 .custom_element_patterns
@@ -1045,7 +1048,8 @@ where
                         .unwrap_or(trimmed)
                         .trim()
                         .strip_prefix("@jsx")
-                        .map(str::trim)
+                        .filter(|rest| rest.starts_with(char::is_whitespace))
+                        .and_then(|rest| rest.split_whitespace().next())
                 });
                 if let Some(pragma) = pragma {
                     self.pragma = Some(pragma.to_string());
@@ -1456,6 +1460,16 @@ where
     }
 }
 
+/// `Fragment` and the aliases it is imported under (`_Fragment`, `_Fragment1`, ...): their children
+/// are a plain child list, never slots.
+fn is_fragment_name(name: &str) -> bool {
+    name.strip_prefix('_')
+        .unwrap_or(name)
+        .strip_prefix(FRAGMENT)
+        .map(|rest| rest.bytes().all(|b| b.is_ascii_digit()))
+        .unwrap_or_default()
+}
+
 fn inject_define_component_option(call: &mut CallExpr, name: &'static str, value: Expr) {
     let options = call.args.get_mut(1);
     if options
@@ -1468,19 +1482,34 @@ fn inject_define_component_option(call: &mut CallExpr, name: &'static str, value
 
     match options.map(|options| &mut *options.expr) {
         Some(Expr::Object(object)) => {
-            if !object.props.iter().any(|prop| {
-                prop.as_prop()
-                    .and_then(|prop| prop.as_key_value())
-                    .and_then(|key_value| key_value.key.as_ident())
-                    .map(|ident| ident.sym == name)
-                    .unwrap_or_default()
-            }) {
-                object
+            let is_user_defined = |prop: &PropOrSpread| match prop {
+                PropOrSpread::Prop(prop) => match &**prop {
+                    Prop::Shorthand(ident) => ident.sym == name,
+                    Prop::KeyValue(KeyValueProp { key, .. })
+                    | Prop::Getter(GetterProp { key, .. })
+                    | Prop::Method(MethodProp { key, .. }) => match key {
+                        PropName::Ident(ident) => ident.sym == name,
+                        PropName::Str(str) => str.value == name,
+                        _ => false,
+                    },
+                    _ => false,
+                },
+                PropOrSpread::Spread(..) => false,
+            };
+            if !object.props.iter().any(is_user_defined) {
+                // options supplied through a spread must win over the injected one
+                let index = object
                     .props
-                    .push(PropOrSpread::Prop(Box::new(Prop::KeyValue(KeyValueProp {
+                    .iter()
+                    .position(|prop| matches!(prop, PropOrSpread::Spread(..)))
+                    .unwrap_or(object.props.len());
+                object.props.insert(
+                    index,
+                    PropOrSpread::Prop(Box::new(Prop::KeyValue(KeyValueProp {
                         key: PropName::Ident(quote_ident!(name)),
                         value: Box::new(value),
-                    }))));
+                    }))),
+                );
             }
         }
         Some(..) => {
